@@ -60,6 +60,12 @@ def run(ctx):
         ctx.violation(x["key"], x["what"] + " (model/real correspondence)", x,
                       no_input=x["att"]["op"] not in concrete_ops)
     ctx.evaluations = ctx.counts.get("pairs-executed", 0)
+    # end-to-end compositions: the shipped application schedules against their algorithm
+    import apps_sem
+    from common import REPO
+    for key, what, replay, noinp in apps_sem.run_apps(ctx, REPO, ctx.scale(1, 2),
+                                                      ctx.scale([(6, 64, 2), (7, 70, 3)], [(6, 64, 2), (7, 70, 3), (13, 129, 5), (1, 1, 1)])):
+        ctx.violation(key, what, replay, no_input=noinp)
     ctx.extra["ops_accepted"] = {k.split(":", 1)[1]: v for k, v in ctx.counts.items() if k.startswith("accepted:")}
     ctx.extra["ops_rejected"] = {k.split(":", 1)[1]: v for k, v in ctx.counts.items() if k.startswith("rejected:")}
     if broken:
